@@ -12,14 +12,19 @@
   * the nesting error is raised by exactly one test, `depth >= max_depth - 1`, made when a value
     starts inside a container (array element or member value): it fires iff the container already
     sits on the last level; no other state of the machine produces it.
-  Not yet proved: `DepthExactStatement` (acceptance exactly when `nest < D`, error position =
-  `firstDeep`), which needs the induction over documents shared with C01; the differential run
-  decides it against `Doc.nest` / `Doc.firstDeep` for D = 1..40.
+  * `depth_exact` / `accepted_iff_nest_below`: on every RFC 8259 document (any shape, layout, size)
+    and every D >= 1: accepted, with the denoted value, iff `nest < D`; otherwise the nesting error
+    at `firstDeep` - the first value enclosed by D containers.  Proved by two inductions over `Doc`
+    (Lemmas/TokenerDoc1-10 for the accept half, shared with C01; Lemmas/TokenerDeep1-4 for the
+    reject half).  The differential run additionally compares implementation, model and
+    `Doc.nest` / `Doc.firstDeep` for D = 1..40.
 -/
 import JsonC.Lemmas.TokenerDepth
 import JsonC.Lemmas.TokenerLoc
 import JsonC.Props.C04
 import JsonC.Spec.Rfc8259
+import JsonC.Lemmas.TokenerDeep4
+import JsonC.Props.C01
 
 namespace JsonC.Tokener
 open JsonC
@@ -137,16 +142,52 @@ theorem depth_error_when_full (t : Tok) (l : Loc) (top : Level) (rest : List Lev
       pushLevel t l top rest st = .redo { t with stack := freshLevel :: { top with state := st } :: rest } l) :=
   pushLevel_depth t l top rest st hm
 
-/-- The full property on documents (to be proved by the induction over `Doc` shared with C01):
-with limit D, a valid text is accepted iff its nesting is below D, and otherwise fails with the
-nesting error at the first value enclosed by D containers. -/
-def DepthExactStatement : Prop :=
-  ∀ (lc : Libc) (d : Int) (f : Nat) (t : Tok) (x : Rfc8259.Text), Tokener.new d f = some t → (f = 0 ∨ f = 1) →
-    x.doc.ok = true → x.doc.intsFit = true → x.doc.keysNulFree = true →
-    (x.doc.nest < d.toNat → (parseExZ lc t x.text).err = .success) ∧
+/-- **C15 on documents**: with limit D (any D ≥ 1, flags 0 or STRICT), a valid text is accepted - with
+exactly the value it denotes - iff its nesting is below D; otherwise the call fails with the nesting
+error, returns no value, and reports as position the first value (in document order) that is enclosed
+by D containers (`Doc.firstDeep`, Spec/Rfc8259.lean).  Every document, every layout, every D. -/
+theorem depth_exact (lc : Libc) (hl : LibcSpec lc) (d : Int) (f : Nat) (hf : f = 0 ∨ f = 1) (t : Tok)
+    (hnew : Tokener.new d f = some t) (x : Rfc8259.Text)
+    (hok : x.doc.ok = true) (hknf : x.doc.keysNulFree = true) (hfit : f = 1 → x.doc.intsFit = true) :
+    (x.doc.nest < d.toNat →
+      (parseEx lc t (x.text ++ [0])).err = .success ∧ (parseEx lc t (x.text ++ [0])).value = some x.doc.denote ∧
+      (parseEx lc t (x.text ++ [0])).offset = x.text.length ∧ (parseEx lc t (x.text ++ [0])).fault = none) ∧
     (d.toNat ≤ x.doc.nest →
-      (parseExZ lc t x.text).err = .depth ∧
-      some (parseExZ lc t x.text).offset = x.doc.firstDeep d.toNat 0 x.lead.length)
+      ∃ k, Rfc8259.Doc.firstDeep d.toNat 0 x.doc x.lead.length = some k ∧
+        (parseEx lc t (x.text ++ [0])).err = .depth ∧ (parseEx lc t (x.text ++ [0])).value = none ∧
+        (parseEx lc t (x.text ++ [0])).offset = k ∧ (parseEx lc t (x.text ++ [0])).stuck = false ∧
+        (parseEx lc t (x.text ++ [0])).fault = none) := by
+  constructor
+  · intro hn
+    have := Props.C01.parse_valid lc hl d f hf t hnew x hok hknf hfit (by omega)
+    exact ⟨this.1, this.2.1, this.2.2.1, this.2.2.2.2⟩
+  · intro hn
+    obtain ⟨hv, hhs, hst, hmd, hstrict⟩ := noVal_of_flags d f t hnew hf
+    have hwf := new_wf d f t hnew
+    cases hk : Rfc8259.Doc.firstDeep d.toNat 0 x.doc x.lead.length with
+    | none =>
+      have := fits_of_firstDeep_none d.toNat x.doc 0 _ hk
+      omega
+    | some k =>
+      refine ⟨k, rfl, ?_⟩
+      exact top_level_deep lc hl t hwf hst hv hhs x hok (fun h => hfit (hstrict.mp h)) hknf k (by rw [hmd]; exact hk)
+
+/-- acceptance is exactly "nesting below D" -/
+theorem accepted_iff_nest_below (lc : Libc) (hl : LibcSpec lc) (d : Int) (f : Nat) (hf : f = 0 ∨ f = 1) (t : Tok)
+    (hnew : Tokener.new d f = some t) (x : Rfc8259.Text)
+    (hok : x.doc.ok = true) (hknf : x.doc.keysNulFree = true) (hfit : f = 1 → x.doc.intsFit = true) :
+    (parseEx lc t (x.text ++ [0])).err = .success ↔ x.doc.nest < d.toNat := by
+  have h := depth_exact lc hl d f hf t hnew x hok hknf hfit
+  constructor
+  · intro hs
+    cases Nat.lt_or_ge x.doc.nest d.toNat with
+    | inl hlt => exact hlt
+    | inr hge =>
+      obtain ⟨k, _, he, _⟩ := h.2 hge
+      rw [he] at hs
+      cases hs
+  · intro hlt
+    exact (h.1 hlt).1
 
 /-- non-vacuity / the model exhibits both verdicts: with D = 2, `[[]]` is accepted and `[[1]]`
 fails with the nesting error at offset 2 (the `1`) -/
